@@ -398,3 +398,16 @@ Example saving_below_db_path_would_lose_the_marks :
   fs_get (fs_put (c_root cfgx, c_db cfgx) ([(1, 1)], [(7, 4)]) []) (load_dir cfgx) = ([], []) /\
   fs_get (fs_put (save_dir cfgx) ([(1, 1)], [(7, 4)]) []) (load_dir cfgx) = ([(1, 1)], [(7, 4)]).
 Proof. vm_compute. split; reflexivity. Qed.
+
+(* FROM TRANSLATED CODE.  The DA-included marks survive a clean restart only through Manager.SaveCache (shutdown) and
+   Manager.LoadCache (NewManager).  For ALL root directories and configurations — db_path included — the two functions,
+   translated from /repo's source on every run (Check/GoLiteFiles.v), name the SAME directories, header cache first:
+   what start-up reads is what shutdown wrote. *)
+From Verif Require Check.GoLiteFiles.
+Theorem C07_saved_marks_are_the_loaded_marks_full : forall w,
+  GoLiteFiles.c_h_ok w = true -> GoLiteFiles.c_d_ok w = true ->
+  exists s l, GoLiteFiles.run_calls GoLiteFiles.cache_globals "Manager.SaveCache" (Some (GoLiteFiles.cache_mgr w)) [] = Some s /\
+              GoLiteFiles.run_calls GoLiteFiles.cache_globals "Manager.LoadCache" (Some (GoLiteFiles.cache_mgr w)) [] = Some l /\
+              GoLiteFiles.dirs s = GoLiteFiles.dirs l /\ GoLiteFiles.dirs s = [GoLiteFiles.header_dir w; GoLiteFiles.data_dir w].
+Proof. exact GoLiteFiles.cache_dirs_agree. Qed.
+Print Assumptions C07_saved_marks_are_the_loaded_marks_full.
